@@ -31,6 +31,14 @@ def main():
         c.count(distinct_keys=[(e["w"], tuple(e["s"])) for e in evs])
         for e in evs[10:4000:1300]:
             c.sample({"fam": e["fam"], "w": e["w"], "text": J.text(e), "undef": e["undef"]})
+    # the other SIMD variants of the block copy underneath the string / stream writes (same inputs, same oracle)
+    for variant in (("h_json.asan_scalar", "h_json.asan_avx2") if c.thorough else ("h_json.asan_avx2",)):
+        (b,) = c.build(variant)
+        p, ok = J.run_family(c, b, "docs_" + variant.split(".")[1], ["docs", str(c.seed + 1), "2000" if c.thorough else "200"], mode="safety")
+        if ok:
+            c.count(distinct_keys=[(variant, e["w"], tuple(e["s"])) for e in vf.read_ndjson(p)])
+        if os.path.exists(p):
+            os.remove(p)
     for levels in (512, 513, 2000):
         rc, out, err = c.run(["bash", "-c", "ulimit -s 8192; exec %s deep %d" % (asan, levels)], timeout=120)
         if c.harness_ok("json nesting %d levels" % levels, rc, out, err):
